@@ -54,6 +54,17 @@ func TestVerifC05(t *testing.T) {
 		if !r.Thorough() {
 			cfgs = []cfgT{all[0], all[1+(wi+int(r.Seed))%3], all[4+(wi+int(r.Seed))%3], all[7+wi%2]}
 		}
+		if r.Thorough() {
+			// seeded configurations: arbitrary time-shift depths (not multiples of the segment duration), offsets, start times off the loop grid
+			rng := r.Rand(int64(5000 + wi))
+			for k := 0; k < 10; k++ {
+				mode := []string{"time", "tlnr"}[rng.Intn(2)]
+				tsbd := 1 + rng.Intn(90)
+				ato := []int64{0, 0, rng.Int63n(segMS), segMS - 1 - rng.Int63n(segMS/4+1)}[rng.Intn(4)]
+				st := []int64{0, 1 + rng.Int63n(50_000), 1_600_000_000 + rng.Int63n(100_000_000)}[rng.Intn(3)]
+				cfgs = append(cfgs, cfgT{mode, tsbd, ato, st, "", mode + ":seeded"})
+			}
+		}
 		// multi-period: a period duration that is a multiple of the (average) segment duration; values the server refuses are skipped below
 		var pdS int64
 		for _, cand := range []int64{10, 12, 20, 30, 60, 120} {
